@@ -1,0 +1,16 @@
+//go:build verif
+
+package cmd
+
+// Machine-checked contracts for the command definition (comment-only; compiled only with -tags verif).
+// Which flag is bound to which Options field is a structural check on BuildRootCmd (flags:bindings).
+
+// The action of the root command: the error of App.Run is the error of the command (C09), the
+// positional arguments are the task names.
+//@ func BuildRootCmd$1
+//@ props C09 C14 C19 C20
+//@ requires spok != nil && spok.Options != nil
+//@ requires [history-invariant] forall c string :: {fexists[c]} I01(c)
+//@ modifies spok.stream, spok.logger, spok.Options.Spokfile, foundDir, findReadErr, taskIdx, loadedOK, removed, fexists, fdata, last, ranCount, dagV, dagE, dagItem, dagN, qpos, lastGraph, runPhase, lastResults, fswrites, runCalls, stdoutDocs, listed, lastForce, strmLeft, strmDone, strmExp, strmLastT, strmInput
+//@ ensures [C09,failing-command-fails-the-command] result == nil && runCalls != old(runCalls) ==> tasksOk(lastResults, len(lastResults))
+//@ ensures [C14,force-flag-reaches-the-run] runCalls != old(runCalls) ==> lastForce == spok.Options.Force
